@@ -380,6 +380,52 @@ def check_offsets(chk, prog, env, model):
     chk.rule('C10.offset-bookkeeping', 'time_offset (on iff secs > 0), enable_iat toggle, default iat on', n, bad, floor=50)
 
 
+def check_setcb(chk, prog, env, model, variant='builder', rule='C10.setcb-table'):
+    """FUNC(setcb) as documented in jwt.h: (cb, ctx) installs both; (NULL, ctx) with a callback installed only updates the ctx;
+    (NULL, ctx) without a callback is an error; (NULL, NULL) removes the callback"""
+    unit = T.VARIANT_UNIT[variant]
+    fn = 'jwt_%s_setcb' % variant
+    prog.func(unit, fn)
+    n = 0
+    bad = 0
+    oldcb = Term(('oldcb',), ptr=True)
+    oldctx = Term(('oldctx',), ptr=True)
+    newcb = Term(('newcb',), ptr=True)
+    newctx = Term(('newctx',), ptr=True)
+    for have_cb in (0, 1):
+        for cb in (0, 1):
+            for ctx in (0, 1):
+                n += 1
+                it = Interp(prog, unit, model=model)
+                st = State()
+                o = H.common_obj(st, variant, False)
+                st.mem[(o, 'c.cb')] = oldcb if have_cb else NULL
+                st.mem[(o, 'c.cb_ctx')] = oldctx if have_cb else NULL
+                for t in (oldcb, oldctx, newcb, newctx):
+                    st.ptrfact[t.k] = 'nonnull'
+                res = it.run(fn, [Ref(o), newcb if cb else NULL, newctx if ctx else NULL], st)
+                for s, rv in res:
+                    gcb, gctx = s.mem.get((o, 'c.cb')), s.mem.get((o, 'c.cb_ctx'))
+                    if cb:
+                        want = (0, vkey(newcb), vkey(newctx) if ctx else ('null',))
+                    elif ctx and have_cb:
+                        want = (0, vkey(oldcb), vkey(newctx))
+                    elif ctx:
+                        want = (1, ('null',), ('null',))
+                    else:
+                        want = (0, ('null',), ('null',))
+                    norm = lambda v: ('null',) if (v is NULL or (isinstance(v, Int) and v.v == 0)) else vkey(v)
+                    got = (rv.v if isinstance(rv, Int) else None, norm(gcb), norm(gctx))
+                    flag = flag_of(s, o)
+                    if got != want or (want[0] == 1) != (flag == 1):
+                        bad += 1
+                        chk.add(Finding(rule, 'libjwt/jwt-common.c', fn, 'cell[cb=%s,ctx=%s,installed=%s]' % (bool(cb), bool(ctx), bool(have_cb)),
+                                        '%s(cb=%s, ctx=%s) with %s callback installed -> returns %s, callback=%s ctx=%s flag=%s; documented: %s'
+                                        % (fn, 'f' if cb else 'NULL', 'c' if ctx else 'NULL', 'a' if have_cb else 'no', got[0], got[1], got[2], flag,
+                                           'install both' if cb else ('update ctx only' if ctx and have_cb else ('error' if ctx else 'remove the callback')))))
+    chk.rule(rule, '%s over cb x ctx x installed: install / update ctx / error / remove as documented' % fn, n, bad, floor=8)
+
+
 def check_builder_effects(chk, prog):
     eff = effects.Effects(prog)
     root = eff.find('jwt_builder_generate', T.VARIANT_UNIT['builder'])
@@ -406,6 +452,7 @@ def run(chk, prog, tier):
     chk.guard('header setup', check_head_setup, chk, prog, env, model)
     chk.guard('time claims', check_time_claims, chk, prog, env, model)
     chk.guard('offset bookkeeping', check_offsets, chk, prog, env, model)
+    chk.guard('setcb table', check_setcb, chk, prog, env, model)
     check_builder_effects(chk, prog)
     chk.guard('private key / ordering', c02.check_order, chk, prog, env)
     chk.guard('setkey table', c02.check_setkey, chk, prog, env)
